@@ -268,3 +268,19 @@ PROPS["C15"] = Spec(
     bounds={"quick": "<=4 components, <=3 steps per phase, 4x3500", "thorough": "<=6 components, 16x15000"},
     assumptions=COMMON_ASSUMPTIONS + ["signals are raised with signal.raise_signal in the main thread of the worker process; at most one per run"],
 )
+
+PROPS["C19"] = Spec(
+    engine="harness.engines.injection", quick_cases=2000, thorough_cases=20000,
+    rule="function source is generated and exec'd: 0-3 ordinary parameters (positional-or-keyword / keyword-only, with/without "
+    "defaults), 1-3 injected parameters (resource() / resource(name); annotations T, Optional[T], T | None, string forward references "
+    "to module-level and to function-local classes), sync or async, plain function or method; resources are static, made by a "
+    "sync or async factory, inherited from the parent context or missing; the call happens in the same context, a nested one, "
+    "another task or without any context; 12% decoration-time negatives (positional-only, unannotated, uncalled marker); "
+    "differential oracle: decorated call vs undecorated call fed by explicit get_resource / get_resource_nowait lookups in "
+    "parameter order from an identically rebuilt history - return values (identity classes of injected objects, pass-through "
+    "arguments), exception classes, body-ran counter, factory call counters and resource_added events must agree; negatives "
+    "raise TypeError at decoration; non-trivial = >=2 injected parameters with different names, or a missing optional, or a "
+    "factory-made / inherited resource",
+    bounds={"quick": "4x2000 (each case runs twice)", "thorough": "16x20000"},
+    assumptions=COMMON_ASSUMPTIONS + ["injected parameters are never also passed by the caller"],
+)
